@@ -370,6 +370,36 @@ def h_analyzer_history(ctx, ops):
         compare(f"after:{op}")
 
 
+def h_size_change(ctx, kind, read_first, method):
+    """the circuit is replaced by one with the same full unitary and heralds but another
+    number of modes (a loss mode became a real mode): the input no longer fits, and the
+    long-lived object must say so exactly as an object without the earlier read does"""
+    lw = ctx.lw
+    f = ctx.m.frac
+    A = lw.Circuit(2)
+    A.bs(0, reflectivity=f(1, 3))
+    A.loss(0, f(1, 2))
+    B = lw.Unitary(A.U_full)
+    cls = lw.emulator.Sampler if kind == "sampler" else lw.emulator.QuickSampler
+    obj = cls(A, lw.State([1, 0]))
+    if read_first:
+        obj.probability_distribution
+    obj.circuit = B
+
+    def outcome(o):
+        try:
+            if method == "read":
+                return {tuple(k.s): v for k, v in o.probability_distribution.items()}
+            return sorted((tuple(k.s), v) for k, v in o.sample_N_outputs(2, seed=3).items())
+        except Exception as e:  # noqa: BLE001
+            return "error"
+    got = outcome(obj)
+    ref_obj = cls(A, lw.State([1, 0]))
+    ref_obj.circuit = B  # same assignments, no earlier read
+    want = outcome(ref_obj)
+    ctx.check((got == "error") == (want == "error"), f"{kind}:{method}:same-outcome-with-and-without-an-earlier-read", {"with-read": str(got)[:60], "without": str(want)[:60]})
+
+
 def harnesses(tier):
     L = 2 if tier == "quick" else 3
     hist = []
@@ -394,5 +424,6 @@ def harnesses(tier):
         ("history", h_history, hist, dict(max_paths=4000, max_seconds=1500)),
         ("sample-without-read", h_sample_without_read, swr),
         ("analyzer", h_analyzer, [dict(first_expected=a, second_expected=b) for a in (True, False) for b in (True, False)]),
+        ("size-change", h_size_change, [dict(kind=k, read_first=r, method=m) for k in ("sampler", "quick") for r in (True, False) for m in ("read", "sample")]),
         ("analyzer-history", h_analyzer_history, [dict(ops=[a]) for a in AN_OPS] + [dict(ops=[a, b]) for a in AN_OPS for b in AN_OPS if a != b or a == "loss-added-in-place"]),
     ]
